@@ -1,12 +1,12 @@
 SPECIFICATION MCSpec
 CONSTANTS
-  U = 8
-  MaxOps = 24
+  U = 10
+  MaxOps = 7
   FailCs = {}
-  FailNs = {}
-  PruneTs = {}
+  FailNs = {2}
+  PruneTs = {150}
   RgsSnaps = {}
-  ResolveCs = {1}
+  ResolveCs = {1, 2}
   WithReload = FALSE
 CONSTRAINT Bound
 VIEW View
